@@ -35,6 +35,33 @@ inductive IntegerOp where
   | ShiftLeft | ShiftRightArith | ShiftRightLog | Modulo | BitAnd | BitOr | BitXor
 deriving DecidableEq, Repr
 
+/-- Go's `x << n`, `x >> n` (logical, for an unsigned `x`) and `x >> n` (arithmetic, for a signed
+`x`) with an unsigned count `n`: once the count reaches the width the result is 0 (or the sign
+fill). Written with that guard so that the compiled driver never builds a 2^63-bit
+intermediate value; `shl_eq`/`shrU_eq`/`shrS_eq` show they are BitVec's own shifts. -/
+def shl {w m : Nat} (x : BitVec w) (n : BitVec m) : BitVec w :=
+  if n.toNat < w then x <<< n.toNat else 0#w
+def shrU {w m : Nat} (x : BitVec w) (n : BitVec m) : BitVec w :=
+  if n.toNat < w then x >>> n.toNat else 0#w
+def shrS {w m : Nat} (x : BitVec w) (n : BitVec m) : BitVec w :=
+  if n.toNat < w then x.sshiftRight n.toNat else (if x.msb then BitVec.allOnes w else 0#w)
+
+theorem shl_eq {w m : Nat} (x : BitVec w) (n : BitVec m) : shl x n = x <<< n.toNat := by
+  unfold shl; split
+  · rfl
+  · rw [BitVec.shiftLeft_eq_zero (by omega)]
+theorem shrU_eq {w m : Nat} (x : BitVec w) (n : BitVec m) : shrU x n = x >>> n.toNat := by
+  unfold shrU; split
+  · rfl
+  · rw [BitVec.ushiftRight_eq_zero (by omega)]
+theorem shrS_eq {w m : Nat} (x : BitVec w) (n : BitVec m) : shrS x n = x.sshiftRight n.toNat := by
+  unfold shrS; split
+  · rfl
+  · rename_i h
+    cases hm : x.msb
+    · rw [BitVec.sshiftRight_eq_of_msb_false hm, BitVec.ushiftRight_eq_zero (by omega)]; rfl
+    · rw [BitVec.sshiftRight_eq_of_msb_true hm, BitVec.ushiftRight_eq_zero (by omega)]; simp
+
 /-- Sequencing of Go calls that can fail: an `error` return or a run-time panic of the
 callee ends the caller the same way. -/
 def bind {α β : Type} : Res α → (α → Res β) → Res β
